@@ -923,7 +923,7 @@ def main(tier, seed):
     jobs = [dict(skeletons=sk[i:i + B]) for i in range(0, len(sk), B)]
     for r in run_jobs('vf.props.c18', 'job_match', jobs, 'rt'):
         chk.add('matching', r)
-    nops = 5 if tier == 'quick' else 6
+    nops = 5
     first_sets = [[a, b, c] for a in (0, 1) for b in range(len(OPS)) for c in range(len(OPS))]
     djobs = [dict(nops=nops, first=f, max_resp=2 if tier == 'quick' else 3, rich=(tier != 'quick')) for f in first_sets]
     # the rich alphabet (source filter, other path, messages from another sender / to another path) at depth 4
